@@ -139,10 +139,15 @@ func newFrame(anc *frame, length int, id uint64) *frame {
 
 // newCallFrame returns a frame for a call of a function value bound to frame anc
 // (a closure or a function wrapper). The call belongs to the current evaluation,
-// not to the evaluation which created the function value: the run id is the one
-// of the root frame.
+// not to the evaluation which created the function value: the run id and the
+// cancellation channel are those of the root frame.
 func newCallFrame(anc *frame, length int) *frame {
-	return newFrame(anc, length, anc.root.runid())
+	root := anc.root
+	f := newFrame(anc, length, root.runid())
+	root.mutex.RLock()
+	f.done = root.done
+	root.mutex.RUnlock()
+	return f
 }
 
 func (f *frame) runid() uint64      { return atomic.LoadUint64(&f.id) }
